@@ -15,8 +15,8 @@ def run(tier, argv):
     chk.add_tlc(res, f"C05_{tier}_ex (exhaustive, invariants in every state)")
     tlc.cleanup(res)
     # (2) random histories (TLC -simulate) replayed step by step through the real traces
-    plans = [("s1", ["f2", "fd", "fs", "fa", "fb"], 4, 12 if tier == "quick" else 150, 150 if tier == "quick" else 3000),
-             ("s2", ["vd", "vf", "fvf", "fc", "fn3"], 3, 10 if tier == "quick" else 150, 120 if tier == "quick" else 3000)]
+    plans = [("s1", ["f2", "fd", "fs", "fa", "fb", "c2"], 4, 12 if tier == "quick" else 150, 150 if tier == "quick" else 3000),
+             ("s2", ["vd", "vf", "fvf", "fc", "fn3", "fvi", "fcv"], 3, 10 if tier == "quick" else 150, 120 if tier == "quick" else 3000)]
     if tier != "quick":
         plans.append(("s3", ["f2", "fs", "fd", "vd"], 6, 100, 2000))
     for tag, progs, depth, num, maxr in plans:
